@@ -46,6 +46,9 @@ NoWedgeT == /\ S => X.hsMs < 120000 /\ ~X.wedge     \* (the handshake deadline i
             /\ X.e = "hostile" => X.ms < 600000
             /\ X.e = "hostile-hs" => X.ms < 120000
 
+\* refused connection attempts never wedge the accept loop: an honest peer is still answered afterwards
+ListenerT == (X.e = "listener" /\ X.skipped = "") => (X.rejected > 0 /\ X.honest = "")
+
 H == X.e = "hostile"
 \* a peer with valid secrets: malformed or oversized content is an error, well-formed content is delivered as written
 HostileT == H => /\ X.expect = "error" => X.err # "" /\ X.delivered = <<>>
